@@ -67,6 +67,11 @@ def systematic(tier):
                           'schedule': [{'act': 'pause', 'at': pos, 'msg': 'pp'}, {'act': 'play', 'at': ticks + 5}]})
             cases.append({'program': program, 'scenario': 'kill', 'opts': {},
                           'schedule': [{'act': 'kill', 'at': pos, 'msg': 'kk'}]})
+            for later in range(pos + 1, ticks + 2):
+                # a second pause request after the first: with a fault in the first one's hooks the process must still be pausable
+                cases.append({'program': program, 'scenario': 'pauseplay', 'opts': {},
+                              'schedule': [{'act': 'pause', 'at': pos, 'msg': 'first'}, {'act': 'pause', 'at': later, 'msg': 'second'},
+                                           {'act': 'play', 'at': ticks + 6}]})
     _sys_cache['all'] = cases
     return cases
 
@@ -239,6 +244,8 @@ def _oracle(kind, site, occurrence, engine, started, drive, injected, result, fa
         return
 
     if kind == 'pauseplay':
+        import asyncio
+
         reached = False
         for record in engine.records:
             if record.raised is injected:
@@ -252,6 +259,17 @@ def _oracle(kind, site, occurrence, engine, started, drive, injected, result, fa
             if value is injected or (asyncio.isfuture(value) and value.done() and not value.cancelled()
                                      and value.exception() is injected):
                 reached = True
+        # "leaves the process live and controllable": pause requests made after the failed one behave normally
+        fault_at = next((i for i, e in enumerate(engine.world.events) if e[0] == 'fault'), None)
+        for record in engine.records:
+            if fault_at is None or record.seq <= fault_at:
+                continue  # requested before the hook failed (it may legitimately share the failed action)
+            if record.action['act'] == 'pause' and record.pre_live and not record.pre_paused and record.where != 'driveout':
+                value = record.result
+                later = common.future_value(value) if record.raised is None else f'raised:{record.raised!r}'
+                if later is not True and later != 'cancelled':
+                    violate('pauseplay_not_controllable', f'a pause() requested after the failed one resolved to {later!r} '
+                                                          f'instead of pausing the process')
         if not reached:
             violate('pauseplay_not_reported', 'the exception raised in the pause/play hook did not reach the requester '
                                               '(neither raised by the call nor carried by the returned action)')
